@@ -1,6 +1,7 @@
 package main
 
 import (
+	"crypto/md5"
 	"encoding/binary"
 	"fmt"
 	"strings"
@@ -136,7 +137,7 @@ func crashOracle(w *World, i int, op Op, obs string) *Mismatch {
 		// look-alikes crafted for the position they will land at (end of the image): magic framing, offset and
 		// lengths consistent, but not a root record: wrong version, garbled JSON, header length != trailer length
 		for variant := 0; variant < 3; variant++ {
-			js = append(js, []byte{0xfe, byte(variant)}) // placeholder, expanded per image in check()
+			js = append(js, append([]byte(lookAlikeMark), byte(variant))) // placeholder, expanded per image below
 		}
 		// byte-exact copies of OLDER root records of this history (their recorded offset no longer
 		// matches the position they are copied to, so they are not self-consistent root records)
@@ -155,7 +156,9 @@ func crashOracle(w *World, i int, op Op, obs string) *Mismatch {
 		}
 		return js
 	}
-	r := c03Rng.Fork()
+	// the random choices depend only on the history (step, file image), so that a replay rebuilds the same images
+	r := NewRng(fnv64(fmt.Sprintf("%d/%d/%x", i, len(w.PreImage), md5.Sum(w.File.Bytes()))))
+	_ = c03Rng
 	img := append([]byte{}, w.PreImage...)
 	for k := 0; k <= len(writes); k++ {
 		complete := k == len(writes)
@@ -168,8 +171,8 @@ func crashOracle(w *World, i int, op Op, obs string) *Mismatch {
 			if ji > 0 {
 				c03.Junk++
 			}
-			if len(j) == 2 && j[0] == 0xfe {
-				j = lookAlikeRoot(int64(len(img)), int(j[1]))
+			if len(j) == len(lookAlikeMark)+1 && string(j[:len(lookAlikeMark)]) == lookAlikeMark {
+				j = lookAlikeRoot(int64(len(img)), int(j[len(lookAlikeMark)]))
 			}
 			cand := append(append([]byte{}, img...), j...)
 			if complete && j != nil {
@@ -285,6 +288,11 @@ func checkC03(rep *Report, rng *Rng, tier string) {
 	rep.Extra["images_also_decoded_by_coq_model"] = c03.ModelDecoded
 }
 
+// lookAlikeMark marks a placeholder in the junk list (far longer than any random junk, which has at most 40 bytes:
+// a random junk of two bytes once collided with the former two-byte placeholder and was expanded, with a variant
+// number outside 0..2, into a complete self-consistent root record -- a false alarm of the harness)
+const lookAlikeMark = "<<look-alike root record crafted for the position it lands at; variant follows>>"
+
 // lookAlikeRoot builds bytes that pass the magic, offset and trailer-length tests of a root record when
 // appended at file offset off, but are not a complete, self-consistent root record.
 func lookAlikeRoot(off int64, variant int) []byte {
@@ -298,8 +306,8 @@ func lookAlikeRoot(off int64, variant int) []byte {
 	}
 	length := uint32(12 + 4 + 4 + len(js) + 8 + 4 + 12)
 	hdrLen := length
-	if variant == 2 {
-		hdrLen = length + 1
+	if variant != 0 && variant != 1 {
+		hdrLen = length + 1 // every other variant number: header length != trailer length (never a valid record)
 	}
 	b := []byte("0g1t2r0g1t2r")
 	b = binary.BigEndian.AppendUint32(b, version)
